@@ -179,6 +179,22 @@ def run_one(ch, cfg):
         w.fs.put(A.SGX_ROOT, sgxpki.pem(root_der).encode())
         st, out = A.sgx_verify(w)
         ref = REF.sgx(doc, keys, root_der, w.clock.now)
+    # ---- history: the same verifier process is asked again about the same files under another root of
+    # trust (and the first one again): each verdict depends on its own inputs only
+    again = []
+    for j in range(ch.draw(3, "verify-again")):
+        which = ch.pick(["other-root", "same"], "again.root")
+        if platform == "ledger":
+            r2 = Key(scalar(b"againroot" + bytes([j]))).pub65.hex() if which == "other-root" else root_hex
+            st2, out2 = A.verify(w, r2)
+            ref2 = REF.ledger(doc, keys, r2)
+        else:
+            d2 = sgxpki.Pki(b"again" + bytes([j]), w.clock.now).root_der if which == "other-root" \
+                else root_der
+            w.fs.put(A.SGX_ROOT, sgxpki.pem(d2).encode())
+            st2, out2 = A.sgx_verify(w)
+            ref2 = REF.sgx(doc, keys, d2, w.clock.now)
+        again.append((which, st2, ref2))
     w.entropy_on = False
     printed = A.parse_verify_output(out)
     desc = "%s device-deviation=%s keys-file=%s root=%s drop-target=%s -> exit %s; reference %s" % (
@@ -193,6 +209,12 @@ def run_one(ch, cfg):
             if v is not None and printed.get(k) != v:
                 viol.append(("verify/printed-value:%s" % k,
                              desc + " printed %r, signed message holds %r" % (printed.get(k), v)))
+    for j, (which, st2, ref2) in enumerate(again):
+        if ref2[0] != (st2 == 0):
+            viol.append(("history/verified-again:%s" % ("accepted" if st2 == 0 else "rejected"),
+                         desc + "; asked again (call %d) under %s root: exit %s, reference %s" % (
+                             j + 2, which, st2, "success" if ref2[0] else "failure(%s)" % ref2[1])))
+            break
     return _res(viol, w, (platform, deviation, keys_alt, root_alt, drop_target, st == 0), True,
                 {"platform." + platform: 1, "ref.success": int(ref[0]),
                  "ref.fail." + (ref[1] if not ref[0] else "-"): 1, "exit.%s" % st: 1},
